@@ -542,6 +542,26 @@ Proof.
 Qed.
 Print Assumptions jwt_presentation_is_signed_payload.
 
+(* GENERATED TABLE: the real decoder (verifiable.JWTVCToJSON = decodeCredJWS without signature check), executed by the
+   translator on every subset of the registered claims x issuer shape (absent, string, object, number) x layout (vc
+   claim, v5 layout, empty vc claim, vc claim plus payload members), agrees with decode_cred_jwt on every row: an edit
+   of the override rules in credential_jwt.go breaks this obligation. *)
+Theorem jwt_decoder_table_agrees :
+  forallb (probe_agrees (fmt_of jwt_probe_fmt)) jwt_probes = true /\ (64 <=? List.length jwt_probes)%nat = true.
+Proof. vm_compute. auto. Qed.
+Print Assumptions jwt_decoder_table_agrees.
+
+(* the proof types the embedded-proof check lets through and the members a Data Integrity proof is decoded into are the
+   generated lists *)
+Theorem generated_type_tables :
+  supported_types = supported_proof_types /\
+  forallb (fun t => mem_str t supported_proof_types)
+    ["Ed25519Signature2018"; "Ed25519Signature2020"; "JsonWebSignature2020"; "EcdsaSecp256k1Signature2019"; "BbsBlsSignature2020"] = true /\
+  mem_str di_type supported_proof_types = false /\
+  forallb (fun k => mem_str k di_proof_members) ["created"; "verificationMethod"; "proofPurpose"; "domain"; "challenge"; "proofValue"; "type"; "cryptosuite"] = true.
+Proof. vm_compute. auto. Qed.
+Print Assumptions generated_type_tables.
+
 Definition jx_cred : obj :=
   [("@context", JStr "ctx"); ("credentialSubject", JObj [("id", JStr "did:s")]); ("id", JStr "urn:1");
    ("issuanceDate", JStr "D1"); ("issuer", JObj [("id", JStr "did:i"); ("name", JStr "N")])].
